@@ -32,14 +32,14 @@ import (
 func init() {
 	Register(&Spec{
 		ID: "C05", Level: "exploration",
-		Rule:   "cases = chains driven by the farm director (coinswap LP tokens distributed to 8 farmers; farm pools in residue/mid/big/mixed magnitude regimes with 1..max reward denoms, future start, natural expiry, destroy, adjust, many ops per block, empty-block gaps, hostile intents) + one scripted late-small-stakers chain; after every tx and block the stake sums and the escrow identity are compared, after every block a what-if branch at height+1 lets (i) every farmer alone, (ii) all farmers in a PRNG order, (iii) all farmers in two partial steps unstake, and every history ends with a real full withdrawal; non-trivial = successful farm tx / executed what-if withdrawal whose relation was evaluated; distinct = distinct (op kind, pool phase, regime, magnitude of amount, number of reward denoms, outcome); since rounds 11-14: coin lists in reverse order, a two-denomination coincident pool (one budget exact, one with remainder), a top-up before start with a staying farmer, restart from the chain's own export in every fourth chain",
+		Rule:   "cases = chains driven by the farm director (coinswap LP tokens distributed to 8 farmers; farm pools in residue/mid/big/mixed magnitude regimes with 1..max reward denoms, future start, natural expiry, destroy, adjust, many ops per block, empty-block gaps, hostile intents) + one scripted late-small-stakers chain; after every tx and block the stake sums and the escrow identity are compared, after every block a what-if branch at height+1 lets (i) every farmer alone, (ii) all farmers in a PRNG order, (iii) all farmers in two partial steps unstake, and every history ends with a real full withdrawal; non-trivial = successful farm tx / executed what-if withdrawal whose relation was evaluated; distinct = distinct (op kind, pool phase, regime, magnitude of amount, number of reward denoms, outcome); since rounds 11-14: coin lists in reverse order, a two-denomination coincident pool (one budget exact, one with remainder), a top-up before start with a staying farmer, restart from the chain's own export in every fourth chain; since rounds 15-19: a creation wrong in two ways at once among the hostile intents; a prelude in which two farmers stake and top up in one block and the reward per share then becomes exactly 1; in mid-life the authority lowers the number of reward denominations to one for twelve blocks",
 		Assume: []string{"nobody sends coins to the farm module account with a plain bank send (outside the property's quantifier; the e2e app config does not block that address)", "tx fees are zero", "amounts stay below 2^110 so that 256-bit Dec overflow is not reached", "the governance creation path is not exercised: the e2e app config registers no escrow_collector module account, so MsgCreatePoolWithCommunityPool always aborts"},
 		Cases:  func(t string) int { return tierN(t, 16, 64) },
 		Run:    func(run *ev.Run, c int) { runFarm(run, c, "C05") },
 	})
 	Register(&Spec{
 		ID: "C06", Level: "exploration",
-		Rule:   "cases = the C05 director with the reward monitors (exact big.Rat stake-weighted share per farmer and denom, budget identity, release per span, refund ledger, full balance sheet of reward denoms per tx and per begin/end block) + scripted twin histories that differ only in harvest frequency; non-trivial = successful farm tx or end-block refund whose relations were evaluated; distinct = distinct (op kind, pool phase, regime, denoms, magnitude, outcome); since rounds 11-14: as C05, plus rate-only multi-denomination adjustments listed in reverse order in the twin histories",
+		Rule:   "cases = the C05 director with the reward monitors (exact big.Rat stake-weighted share per farmer and denom, budget identity, release per span, refund ledger, full balance sheet of reward denoms per tx and per begin/end block) + scripted twin histories that differ only in harvest frequency; non-trivial = successful farm tx or end-block refund whose relations were evaluated; distinct = distinct (op kind, pool phase, regime, denoms, magnitude, outcome); since rounds 11-14: as C05, plus rate-only multi-denomination adjustments listed in reverse order in the twin histories; since rounds 15-19: see C05",
 		Assume: []string{"reward amounts are taken from message responses and cross-checked against balance deltas", "K in the rounding bound = number of successful stake/unstake/harvest messages of that farmer on that pool", "same as C05"},
 		Cases:  func(t string) int { return tierN(t, 16, 64) },
 		Run:    func(run *ev.Run, c int) { runFarm(run, c, "C06") },
